@@ -26,13 +26,13 @@ const (
 func (v Verdict) String() string { return [...]string{"accept", "reject", "dontcare"}[v] }
 
 var intBits = map[Kind]int{
-	KInt: strconv.IntSize, KInt8: 8, KInt16: 16, KInt32: 32, KInt64: 64,
+	KInt: strconv.IntSize, KInt8: 8, KInt16: 16, KInt32: 32, KInt64: 64, KLvl: 8,
 	KUint: strconv.IntSize, KUint8: 8, KUint16: 16, KUint32: 32, KUint64: 64,
 }
 
 func isSignedInt(k Kind) bool {
 	switch k {
-	case KInt, KInt8, KInt16, KInt32, KInt64:
+	case KInt, KInt8, KInt16, KInt32, KInt64, KLvl:
 		return true
 	}
 	return false
@@ -94,6 +94,8 @@ func setIntKind(k Kind, n *big.Int) interface{} {
 		return int(n.Int64())
 	case KInt8:
 		return int8(n.Int64())
+	case KLvl:
+		return Lvl(n.Int64())
 	case KInt16:
 		return int16(n.Int64())
 	case KInt32:
